@@ -155,6 +155,27 @@ def backend_runs(r, quick):
     return len(specs), fails, keys, samples, len(klines), kdis
 
 
+def escalate(chk, names):
+    """a translator or a correspondence broke: many more real runs of the optimizers the broken cases name (all optimizers with a repair
+    step when none is named), under non-convex constraints on tiny and huge dimensions"""
+    r = C.rng("C01-escalate")
+    names = [n for n in names if n in gen.ALL_OPTIMIZERS] or [n for n in gen.ALL_OPTIMIZERS if n not in ("RandomSearchOptimizer",)]
+    fails, n = [], 0
+    for name in names[:8]:
+        for _ in range(20 if len(names) > 3 else 40):
+            sp = bkgen.scenario(r, name, constraint_p=0.0, sizes=[1, 2, 3, 5, 100], iters=50)
+            if len(sp["space"]) >= 2 and gen.space_size(sp["space"]) >= 4:
+                sp["constraint"] = gen.gen_constraint(r, sp["space"], kinds=("ring", "band", "paritysum", "mask", "half"))
+            blog = bkd.Log()
+            with bkd.capture(blog):
+                out = scen.run_scenario(sp, with_model=False, blog=blog)
+            n += 1
+            fails += monitor(out, blog)
+            if len(fails) > 20:
+                break
+    chk.monitor("ESCALATED search (a translator or correspondence broke): C01 statement on many more real runs of the optimizers named by the broken cases", n, fails)
+
+
 def run():
     chk = Check("C01", props_modules=["GFO.Props.C01", "GFO.Props.LocalRuns", "GFO.Props.PopRuns", "GFO.Props.EvoRuns", "GFO.Props.PatternRuns", "GFO.Props.PowellRuns", "GFO.Props.SimplexRuns", "GFO.Props.DirectRuns", "GFO.Props.SmboPosRuns", "GFO.Props.InitSpace", "GFO.Props.GridRuns", "GFO.Gen.CoreGenCheck", "GFO.Gen.LocalGenCheck", "GFO.Gen.InitGenCheck"], gen_steps=(translators.gen_core, translators.gen_local, translators.gen_init))
     chk.build_and_audit()
@@ -181,5 +202,7 @@ def run():
     localgen.add_simplex_to(chk, C.rng("C01-simplex"), C.T(20, 200), constraint_p=0.3, nonfinite_p=0.0)
     localgen.add_direct_to(chk, C.rng("C01-direct"), C.T(20, 200), constraint_p=0.3, nonfinite_p=0.0)
     localgen.add_smbo_to(chk, C.rng("C01-smbo"), C.T(4, 30), constraint_p=0.3, nonfinite_p=0.0)
+    if chk.needs_escalation():
+        chk.stage("escalated search", escalate, chk, chk.broken_opts())
     scen.shutdown_manager()
     return chk.finish()
